@@ -7,6 +7,26 @@ import os
 VERIF = os.path.dirname(os.path.dirname(os.path.abspath(__file__)))
 
 CLAIMS = {
+    "C03": dict(
+        category="proof", design_ref="§6 U15",
+        technique="Verus contracts on SegmentIter::{new,is_finished,remaining_offsets,skip} extracted verbatim: forward scans visit offsets[idx..], reverse scans visit offsets[..=idx] backwards; replay through the real Database (scenario driver DB)",
+        text="Unbounded proof of the index arithmetic that positions a forward or reverse scan inside one segment's offset list: for every offset list, index and direction the iterator's remaining sequence is exactly the slice the property prescribes (reverse from the end when idx >= len); skip saturates; is_finished iff nothing remains.",
+        note="PARTIAL: only SegmentIter's synchronous positioning is under contract. NOT decided: BucketIter::next_batch / rollover hand-over between segments (async, closures into the reader pool), IterConfig::try_get_* index computation, the MPHF/bloom index lookups (external crates), the stream filter. Callers clamp the index (precondition). The database-level replay driver exercises those paths only as a counterexample search."),
+    "C04": dict(
+        category="other", design_ref="§6 U13",
+        technique="Kani/CBMC on SegmentBlock::read_committed_events and BucketSegmentReader::read_committed_events (polonius) extracted verbatim; read_record behind a contract over an abstract well-formed log",
+        text="Bounded stand-in, labelled: from every record boundary of every well-formed log (two transactions, the second possibly absent or cut after 1 or 2 events by a crash) the readers return a single-event transaction alone, a multi-event transaction only when its commit record is in the log, with every sibling event between the offset and the commit and none of another transaction, and nothing for a transaction whose commit is missing.",
+        note="Bounded (log <= 6 records). Log well-formedness is a precondition taken from the writer. SmallVec/Uuid are models; record decoding (bincode, seglog) is behind read_record's contract. NOT decided: concurrent readers while a transaction is being written (C18's flushed-offset contract), the stream filter afterwards."),
+    "C09": dict(
+        category="other", design_ref="§7 U16",
+        technique="Kani/CBMC on SubscriptionMatcher::{has_seen,update_state,update_from_sequences} extracted verbatim (model HashMap/HashSet): per-key delivery floor with whole-view frame",
+        text="Bounded stand-in (collections <= 2 entries; single-partition / single-stream matchers complete): has_seen(r) iff r does not match or lies below the floor of its key; update_state raises exactly that key's floor to pos+1 and leaves every other key's floor unchanged; hence a delivered event is never delivered again and no other stream/partition is re-delivered or skipped.",
+        note="PARTIAL: only the matcher's sequential algebra. NOT decided: history loops (async), history/live hand-over, broadcast lag, the acknowledgement window, confirmed-only delivery (watermark gating is C07). Known finding: Streams subscriptions started with AllStreams(v) forget v for the other streams."),
+    "C16": dict(
+        category="other", design_ref="§7 U12",
+        technique="Kani/CBMC on bucket_id_to_thread_id extracted verbatim: total on listed buckets, thread id in range, deterministic (router and owner filter call the same function), balanced",
+        text="Bounded stand-in (<= 6 buckets, ids full-range u16, any thread count): every stored bucket is routed to exactly one existing writer thread, the same one Worker::new assigns it to, so appends to one bucket are executed by one thread one at a time; the per-request accept/reject decision is the sequential contract of C25/C02 (validate_partition_sequence, expected-version algebra).",
+        note="PARTIAL: the serialisation itself is Rust ownership (&mut WriterSet owned by one thread; trusted: rustc) plus the sequential run loop; channel and scheduler behaviour are not modelled. WriterSet::validate_event_versions / handle_write are not under contract in this build."),
     "C08": dict(
         category="other", design_ref="§7 U09",
         technique="Kani/CBMC on update_confirmation extracted verbatim (model BTreeMap): per-call contract over arbitrary state with the maximal-watermark invariant assumed before and proved after (inductive step); complete harness for the atomic cell",
